@@ -88,11 +88,14 @@ class KexDH:  # pragma: nocover
         self.__ca_key_type = ''
         self.__ca_n_len = 0
 
-        packet_type, payload = s.read_packet(2)
-
-        # Skip any & all MSG_DEBUG messages.
-        while packet_type == Protocol.MSG_DEBUG:
+        try:
             packet_type, payload = s.read_packet(2)
+
+            # Skip any & all MSG_DEBUG messages.
+            while packet_type == Protocol.MSG_DEBUG:
+                packet_type, payload = s.read_packet(2)
+        except SSH_Socket.InvalidPacketException as e:
+            raise KexDHException('Invalid packet received while waiting for the key exchange reply: %s' % str(e)) from None
 
         if packet_type != -1 and packet_type not in [Protocol.MSG_KEXDH_REPLY, Protocol.MSG_KEXDH_GEX_REPLY]:  # pylint: disable=no-else-raise
             raise KexDHException('Expected MSG_KEXDH_REPLY (%d) or MSG_KEXDH_GEX_REPLY (%d), but got %d instead.' % (Protocol.MSG_KEXDH_REPLY, Protocol.MSG_KEXDH_GEX_REPLY, packet_type))
@@ -103,6 +106,12 @@ class KexDH:  # pragma: nocover
             self.out.d("KexDH.recv_reply(): received package_type == -1.")
             return None
 
+        try:
+            return self.__parse_reply(payload, parse_host_key_size)
+        except (struct.error, ValueError, IndexError) as e:  # Note that UnicodeDecodeError is a ValueError.
+            raise KexDHException('Failed to parse the key exchange reply: %s' % str(e)) from None
+
+    def __parse_reply(self, payload: bytes, parse_host_key_size: bool) -> Optional[bytes]:
         # Get the host key blob, F, and signature.
         ptr = 0
         hostkey, _, ptr = KexDH.__get_bytes(payload, ptr)
@@ -233,6 +242,8 @@ class KexDH:  # pragma: nocover
     def __get_bytes(buf: bytes, ptr: int) -> Tuple[bytes, int, int]:
         num_bytes = struct.unpack('>I', buf[ptr:ptr + 4])[0]
         ptr += 4
+        if ptr + num_bytes > len(buf):
+            raise ValueError('length field (%u) exceeds the remaining data (%u)' % (num_bytes, len(buf) - ptr))
         return buf[ptr:ptr + num_bytes], num_bytes, ptr + num_bytes
 
     # Converts a modulus length in bytes to its size in bits, after some
@@ -380,13 +391,19 @@ class KexGroupExchange(KexDH):
         s.write_int(maxbits)
         s.send_packet()
 
-        packet_type, payload = s.read_packet(2)
-        if packet_type not in [Protocol.MSG_KEXDH_GEX_GROUP, Protocol.MSG_DEBUG]:
-            raise KexDHException('Expected MSG_KEXDH_GEX_REPLY (%d), but got %d instead.' % (Protocol.MSG_KEXDH_GEX_REPLY, packet_type))
-
-        # Skip any & all MSG_DEBUG messages.
-        while packet_type == Protocol.MSG_DEBUG:
+        try:
             packet_type, payload = s.read_packet(2)
+            if packet_type not in [Protocol.MSG_KEXDH_GEX_GROUP, Protocol.MSG_DEBUG]:
+                raise KexDHException('Expected MSG_KEXDH_GEX_REPLY (%d), but got %d instead.' % (Protocol.MSG_KEXDH_GEX_REPLY, packet_type))
+
+            # Skip any & all MSG_DEBUG messages.
+            while packet_type == Protocol.MSG_DEBUG:
+                packet_type, payload = s.read_packet(2)
+        except SSH_Socket.InvalidPacketException as e:
+            raise KexDHException('Invalid packet received while waiting for the GEX group: %s' % str(e)) from None
+
+        if packet_type != Protocol.MSG_KEXDH_GEX_GROUP:
+            raise KexDHException('Expected MSG_KEXDH_GEX_GROUP (%d), but got %d instead.' % (Protocol.MSG_KEXDH_GEX_GROUP, packet_type))
 
         try:
             # Parse the modulus (p) and generator (g) values from the server.
@@ -402,8 +419,12 @@ class KexGroupExchange(KexDH):
 
             g = int(binascii.hexlify(payload[ptr:ptr + g_len]), 16)
             ptr += g_len
-        except struct.error:
+        except (struct.error, ValueError):
             raise KexDHException("Error while parsing modulus and generator during GEX init: %s" % str(traceback.format_exc())) from None
+
+        # A private exponent can only be chosen when the modulus is large enough; refuse degenerate groups.
+        if p < 7 or g < 1:
+            raise KexDHException("Invalid modulus (%d) or generator (%d) received during GEX init." % (p, g))
 
         # Now that we got the generator and modulus, perform the DH exchange
         # like usual.
